@@ -1,6 +1,7 @@
 import SamplyModel.Lemmas.SymbolList
 import SamplyModel.Lemmas.BreakpadLookup
 import SamplyModel.Lemmas.JitDumpIndex
+import SamplyModel.Lemmas.ObjectFile
 /-!
 # C05 — symbol lookup returns the function that contains the address, consistently
 
@@ -208,7 +209,111 @@ theorem C05_no_panic_obj (demangle : Name → Name) (d : Desc) (ranges : List Ra
     · simp
     · simp
 
+/-- Completeness (no spurious miss), at full strength: for every description, every lookup address that
+stands for a relative address `rel` and every pair of consecutive entries `e`, `nxt` of the list with
+`e.addr ≤ rel < nxt.addr`: if `e` carries a name the lookup answers, with exactly that entry (start,
+distance to the next entry, demangled name). Together with `C05_contains_obj` / `C05_greatest_obj` this
+characterises the answer completely: a lookup answers nothing only if the address form stands for no relative
+address, or no entry starts at or before `rel`, or the greatest such entry is an end marker / has an unreadable
+name, or it is the last entry of the list. -/
+theorem C05_complete_obj (demangle : Name → Name) (framesPanic : Nat → Bool) (d : Desc) (ranges : List Range)
+    (a : Addr) (svma rel : Nat) (hto : toSvmaRel ⟨build d, d.base, ranges⟩ a = .hit (svma, rel))
+    (i : Nat) (e nxt : Entry) (n : Name) (he : (build d)[i]? = some e) (hn : (build d)[i + 1]? = some nxt)
+    (hname : e.kind.name e.addr = some n) (h1 : e.addr ≤ rel) (h2 : rel < nxt.addr)
+    (hf : framesPanic svma = false) :
+    lookupSync demangle framesPanic ⟨build d, d.base, ranges⟩ a
+      = .hit ⟨e.addr, some (nxt.addr - e.addr), demangle n⟩ := by
+  have hrel := lookupRel_complete (build_strict d) he hn hname h1 h2
+  unfold lookupSync
+  rw [hto]
+  simp only [lookupRelInfo, hrel]
+  rw [if_neg (by omega)]
+  simp [hf]
+
+/-- Corollary in terms of the map's own enumeration: a lookup at the start of an enumerated symbol answers
+with that symbol (demangled), unless the symbol is the very last entry of the list. -/
+theorem C05_complete_obj_enumerated (demangle : Name → Name) (d : Desc) (s : Nat) (n : Name)
+    (hmem : (s, n) ∈ iterSymbols (build d)) (hnl : ∃ x ∈ build d, s < x.addr) :
+    ∃ size, 0 < size ∧ lookupRelInfo demangle (build d) s = .hit ⟨s, some size, demangle n⟩ := by
+  obtain ⟨e, hrel, hlt⟩ := lookupRel_at_enumerated (build_strict d) hmem hnl
+  refine ⟨e - s, by omega, ?_⟩
+  simp only [lookupRelInfo, hrel]
+  rw [if_neg (by omega)]
+
+
 end Obj
+
+/-! ## from the object file to the symbol list (ELF, Mach-O, PE): `Model/ObjectFile.lean` -/
+
+section ObjFileSec
+open SymList ObjFile
+
+/-- PE: `function_start_and_end_addresses` yields one (start, end) pair per complete 12-byte entry of `.pdata`; pair
+`k` is decoded from the bytes at offset `12 * k` (start = little-endian bytes 0..4, end = bytes 4..8 of that entry:
+see the defining equation of `pdataAddrs`, instantiated in the second conjunct). -/
+theorem C05_pdata_spec (b : List UInt8) (k : Nat) :
+    (pdataAddrs b).length = b.length / 12 ∧
+    (pdataAddrs b)[k]? = (pdataAddrs (b.drop (12 * k))).head? ∧
+    (∀ b0 b1 b2 b3 b4 b5 b6 b7 b8 b9 b10 b11 rest,
+      b.drop (12 * k) = b0 :: b1 :: b2 :: b3 :: b4 :: b5 :: b6 :: b7 :: b8 :: b9 :: b10 :: b11 :: rest →
+      (pdataAddrs b)[k]? = some (le32 b0 b1 b2 b3, le32 b4 b5 b6 b7)) := by
+  have hk : (pdataAddrs b)[k]? = (pdataAddrs (b.drop (12 * k))).head? := by
+    rw [← pdataAddrs_drop, List.head?_drop]
+  refine ⟨pdataAddrs_length b, hk, ?_⟩
+  intro b0 b1 b2 b3 b4 b5 b6 b7 b8 b9 b10 b11 rest h
+  rw [hk, h]
+  simp [pdataAddrs]
+
+/-- Mach-O: the fuel of the LC_FUNCTION_STARTS loop is adequate — any larger fuel gives the same list (every decoded
+delta consumes at least one byte), so `machoStarts` is the unbounded loop of the code. -/
+theorem C05_macho_starts_fuel (bytes : List UInt8) (extra : Nat) :
+    machoStartsFrom (bytes.length + 1 + extra) bytes 0 = machoStarts bytes :=
+  machoStartsFrom_fuel bytes (bytes.length + 1) extra 0 (by omega)
+
+/-- Mach-O: `read_uleb128` inverts the standard ULEB128 encoding for every `u64` value, whatever follows. -/
+theorem C05_uleb_roundtrip (n : Nat) (hn : n < U64) (rest : List UInt8) :
+    readUleb128 (ulebEncode n ++ rest) = some (n, rest) := readUleb128_encode n hn rest
+
+/-- Mach-O: `get_function_starts` on the standard encoding of any list of non-zero deltas (sum below 2^64) followed by
+the zero terminator and anything after it yields the running sums of the deltas, each truncated to `u32`; in
+particular it does not panic and ignores what follows the terminator. -/
+theorem C05_macho_starts_spec (ds : List Nat) (junk : List UInt8) (hpos : ∀ d ∈ ds, 0 < d) (hsum : ds.sum < U64) :
+    machoStarts ((ds.flatMap ulebEncode) ++ 0 :: junk) = some ((runningSums 0 ds).map (· % U32)) :=
+  machoStarts_encode ds junk hpos hsum
+
+/-- The whole pipeline, for every presentation of an ELF / Mach-O / PE file (any segments, sections, symbols,
+exports, `.eh_frame` FDEs / LC_FUNCTION_STARTS bytes / `__unwind_info` starts / `.pdata` bytes): if loading does not
+panic, every successful lookup on the resulting map, in any address form, returns a symbol that contains the relative
+address the lookup address stands for, that is the entry of the map's enumeration with the greatest start not above
+it (unique), with the demangled name of that entry. -/
+theorem C05_objfile_sound (demangle : Name → Name) (framesPanic : Nat → Bool) (p : Pres) (m : ObjMap)
+    (hm : mapOf p = some m) (a : Addr) (r : SymInfo) (h : lookupSync demangle framesPanic m a = .hit r) :
+    ∃ svma rel n, toSvmaRel m a = .hit (svma, rel) ∧
+      r.start ≤ rel ∧ (∃ sz, r.size = some sz ∧ rel < r.start + sz) ∧
+      (r.start, n) ∈ iterSymbols m.entries ∧ r.name = demangle n ∧
+      (∀ q ∈ iterSymbols m.entries, q.1 ≤ rel → q.1 ≤ r.start) ∧
+      (∀ n', (r.start, n') ∈ iterSymbols m.entries → n' = n) := by
+  obtain ⟨d, _, _, rfl⟩ := mapOf_spec hm
+  obtain ⟨svma, rel, hto, h1, h2⟩ := C05_contains_obj demangle framesPanic d (rangesOf p) a r h
+  obtain ⟨svma', rel', n, hto', h3, h4, _, h5, h6⟩ := C05_greatest_obj demangle framesPanic d (rangesOf p) a r h
+  rw [hto] at hto'
+  injection hto' with e
+  injection e with e1 e2
+  subst e1; subst e2
+  exact ⟨svma, rel, n, hto, h1, h2, h3, h4, h5, h6⟩
+
+/-- … and no spurious miss on such a map: a named entry followed by another entry answers every address of its
+range, in every address form that stands for it. -/
+theorem C05_objfile_complete (demangle : Name → Name) (framesPanic : Nat → Bool) (p : Pres) (m : ObjMap)
+    (hm : mapOf p = some m) (a : Addr) (svma rel : Nat) (hto : toSvmaRel m a = .hit (svma, rel))
+    (i : Nat) (e nxt : Entry) (n : Name) (he : m.entries[i]? = some e) (hn : m.entries[i + 1]? = some nxt)
+    (hname : e.kind.name e.addr = some n) (h1 : e.addr ≤ rel) (h2 : rel < nxt.addr)
+    (hf : framesPanic svma = false) :
+    lookupSync demangle framesPanic m a = .hit ⟨e.addr, some (nxt.addr - e.addr), demangle n⟩ := by
+  obtain ⟨d, _, _, rfl⟩ := mapOf_spec hm
+  exact C05_complete_obj demangle framesPanic d (rangesOf p) a svma rel hto i e nxt n he hn hname h1 h2 hf
+
+end ObjFileSec
 
 /-! ## Breakpad -/
 
@@ -268,11 +373,33 @@ theorem C05_cache_transparent_bp (f : File) (ix : List Entry) (ops : List Op) :
     runC f ix Cache.empty ops = ops.map (pureAns f ix) :=
   runC_spec f ix ops Cache.empty (CacheOk_empty f)
 
+/-- Cache transparency at the granularity the code locks at: `iter_symbols` takes the cache mutex once *per element*,
+so other threads' lookups and elements interleave with one thread's enumeration. For every sequence of critical
+sections (a lookup, or element `i` of somebody's enumeration) starting from the empty cache, each result equals the
+cache-free meaning of that step alone; and the elements `0..symbol_count()` put together are the cache-free
+enumeration — whatever was interleaved. -/
+theorem C05_cache_transparent_bp_per_element (f : File) (ix : List Entry) (steps : List Step) :
+    runSteps f ix Cache.empty steps = steps.map (pureStep f ix) ∧
+    (List.range ix.length).filterMap (iterElem f ix) = iterSymbols f ix :=
+  ⟨runSteps_spec f ix steps Cache.empty (CacheOk_empty f), iterSymbols_eq_elems f ix⟩
+
 theorem C05_no_panic_bp (f : File) (ix : List Entry) (a : Addr) : lookup f ix a ≠ .panic := by
   cases a with
   | rel a => exact lookupRel_no_panic f ix a
   | svma _ => simp [lookup]
   | fileOffset _ => simp [lookup]
+
+/-- Completeness (no spurious miss): in every strictly sorted index, the slot `e` with the greatest address
+`≤ a` (its successor, if any, lies above `a`) answers: a readable PUBLIC record always (size = distance to
+the next symbol address, none for the last), a readable FUNC record for every address of its own range. -/
+theorem C05_complete_bp (f : File) (ix : List Entry) (hs : StrictSorted ix) (i : Nat) (e : Entry) (a : Nat)
+    (he : ix[i]? = some e) (h1 : e.addr ≤ a) (h2 : ∀ nxt, ix[i + 1]? = some nxt → a < nxt.addr) :
+    (∀ n, e.kind = .public_ → f.pubAt e.offset = some n →
+      lookup f ix (.rel a) = .hit ⟨e.addr, (ix[i + 1]?).map (fun nxt => nxt.addr - e.addr), n⟩) ∧
+    (∀ size n, e.kind = .func → f.funcAt e.offset = some (size, n) → a < e.addr + size →
+      lookup f ix (.rel a) = .hit ⟨e.addr, some size, n⟩) :=
+  lookupRel_complete hs he h1 h2
+
 
 end Bp
 
@@ -280,6 +407,17 @@ end Bp
 
 section Jit
 open JitDump
+
+/-- The file-layout hypothesis of `WF` is not an assumption about jitdump files: for *every* record stream (code
+loads, debug-info records, other records of any sizes), every header length `off` and every file length (a dump that
+is still being written is cut anywhere), the entries `from_reader` builds are laid out one after the other, and lie
+inside the file. With non-empty code records below 4 GiB the whole of `WF` holds, so `C05_contains_jit`,
+`C05_greatest_jit`, `C05_complete_jit`, `C05_forms_jit`, `C05_no_panic_jit` apply to every such file. -/
+theorem C05_jit_from_reader (fileLen off : Nat) (recs : List Rec) :
+    (entriesFrom fileLen off recs).Pairwise (fun e1 e2 => e1.codeOff + e1.len < e2.codeOff) ∧
+    (∀ e ∈ entriesFrom fileLen off recs, off + 57 ≤ e.codeOff ∧ e.codeOff + e.len ≤ fileLen) ∧
+    ((∀ nl cl nm, Rec.load nl cl nm ∈ recs → 0 < cl ∧ cl < U32) → WF (entriesFrom fileLen off recs)) :=
+  ⟨entriesFrom_layout fileLen recs off, entriesFrom_lower fileLen recs off, entriesFrom_WF fileLen off recs⟩
 
 /-- With non-empty code records below 4 GiB the cumulative relative addresses are strictly increasing
 (so `binary_search` has a unique answer), and building the index does not overflow as long as the sum of
@@ -387,6 +525,13 @@ theorem C05_cache_transparent_jit (ix : Index) (ops : List Op) :
     runC ix [] ops = ops.map (pureAns ix) :=
   runC_spec ix ops [] (MemoOk_nil _)
 
+/-- Cache transparency per element (the `names` cache is locked once per element of `iter_symbols`), see
+`C05_cache_transparent_bp_per_element`. -/
+theorem C05_cache_transparent_jit_per_element (ix : Index) (steps : List Step) :
+    runSteps ix [] steps = steps.map (pureStep ix) ∧
+    (List.range ix.rels.length).filterMap (iterElem ix) = iterSymbols ix :=
+  ⟨runSteps_spec ix steps [] (MemoOk_nil _), iterSymbols_eq_elems ix⟩
+
 theorem C05_no_panic_jit (entries : List Entry) (ix : Index) (hw : WF entries)
     (hb : buildIndex entries = some ix) (a : Addr) : lookup ix a ≠ .panic := by
   obtain ⟨hent, hr⟩ := buildIndex_spec hb
@@ -418,6 +563,22 @@ theorem C05_no_panic_jit (entries : List Entry) (ix : Index) (hw : WF entries)
       obtain ⟨e, he, _⟩ := lookupOffset_hit hb hloc
       exact getElem?_lt he
 
+/-- Completeness (no spurious miss): every code byte of every record whose name can be read is answered,
+by relative address and by file offset, with that record (start, code length, stored name). -/
+theorem C05_complete_jit (entries : List Entry) (ix : Index) (hw : WF entries)
+    (hb : buildIndex entries = some ix) (i : Nat) (e : Entry) (s k : Nat) (n : Name)
+    (hei : entries[i]? = some e) (hsi : ix.rels[i]? = some s) (hk : k < e.len) (hname : e.name = some n) :
+    lookup ix (.rel (s + k)) = .hit ⟨s, some e.len, n⟩ ∧
+    lookup ix (.fileOffset (e.codeOff + k)) = .hit ⟨s, some e.len, n⟩ := by
+  obtain ⟨h1, h2⟩ := locate_forms hb hw.small hw.layout hei hsi hk
+  obtain ⟨hent, _⟩ := buildIndex_spec hb
+  have hsm := hw.small e (List.mem_of_getElem? hei)
+  have hnm : nameAt ix i = some n := by simp [nameAt, hent, hei, hname]
+  constructor
+  · simp [lookup, locate, h2, hnm, answer, hent, hei, Nat.mod_eq_of_lt hsm]
+  · simp [lookup, locate, h1, hnm, answer, hent, hei, Nat.mod_eq_of_lt hsm]
+
+
 end Jit
 
 /-! ## non-vacuity: concrete inputs satisfy the hypotheses, and the conclusions are the expected numbers -/
@@ -440,6 +601,64 @@ example : lookupRel C05_exEntries 0xfff = .miss := by decide
 example : lookupSync id (fun _ => false) ⟨C05_exEntries, 0x200000, [⟨0x200000, 0, 0x2000⟩]⟩ (.fileOffset 0x1011)
     = .hit ⟨0x1010, some 0x20, [97]⟩ := by decide
 
+/-- the description that list comes from, through the filters, conversions, stable sort and dedup of `build`:
+image base 0x200000, one text section (index 1) 0x201000..0x201400, `alpha` FUNC size 0x20, `beta` FUNC unsized,
+an OBJECT symbol (dropped), a NOTYPE symbol (dropped), `alpha` again in `.dynsym` (loses against `.symtab`) -/
+def C05_exDesc : Desc where
+  base := 0x200000
+  execSections := [1]
+  symbols := [⟨0x201040, 0, .text, some 1, some [98]⟩, ⟨0x201010, 0x20, .text, some 1, some [97]⟩,
+              ⟨0x201100, 8, .other, some 1, some [99]⟩, ⟨0x201200, 0, .label, some 1, some [100]⟩]
+  dynSymbols := [⟨0x201010, 0x20, .text, some 1, some [97, 97]⟩]
+  exports := none
+  funcStarts := none
+  entry := 0x201000
+  textSections := [(0x201000, 0x400)]
+  funcEnds := none
+
+/-- `build` of that description is that list (mergeSort evaluated by `simp`), and lookups through `build` hit
+in all three address forms (the hypotheses of `C05_contains_obj` / `C05_complete_obj` are satisfiable) -/
+example : build C05_exDesc = C05_exEntries ∧
+    lookupSync id (fun _ => false) ⟨build C05_exDesc, C05_exDesc.base, [⟨0x200000, 0, 0x2000⟩]⟩ (.rel 0x102f)
+      = .hit ⟨0x1010, some 0x20, [97]⟩ ∧
+    lookupSync id (fun _ => false) ⟨build C05_exDesc, C05_exDesc.base, [⟨0x200000, 0, 0x2000⟩]⟩ (.svma 0x20102f)
+      = .hit ⟨0x1010, some 0x20, [97]⟩ ∧
+    lookupSync id (fun _ => false) ⟨build C05_exDesc, C05_exDesc.base, [⟨0x200000, 0, 0x2000⟩]⟩ (.fileOffset 0x102f)
+      = .hit ⟨0x1010, some 0x20, [97]⟩ := by
+  have hp : parts C05_exDesc = [⟨0x1040, .symbol (some [98])⟩, ⟨0x1010, .symbol (some [97])⟩,
+      ⟨0x1010, .symbol (some [97, 97])⟩, ⟨0x1000, .entryPoint⟩, ⟨0x1400, .endAddress⟩, ⟨0x1030, .endAddress⟩] := by
+    decide
+  have hb : build C05_exDesc = C05_exEntries := by
+    unfold build
+    rw [hp]
+    simp [sortEntries, List.mergeSort, List.MergeSort.Internal.splitInTwo, dedup, dedupAux, C05_exEntries]
+  rw [hb]
+  decide
+
+/-- a two-entry `.pdata` (12 bytes each; the third word is the unwind-info address) and a trailing partial entry -/
+example : ObjFile.pdataAddrs [0x00, 0x10, 0, 0, 0x2a, 0x10, 0, 0, 9, 9, 9, 9, 0x30, 0x10, 0, 0, 0x80, 0x10, 0, 0, 1, 1, 1, 1, 7, 7]
+    = [(0x1000, 0x102a), (0x1030, 0x1080)] := by decide
+/-- LC_FUNCTION_STARTS: deltas 0x1000, 0x20, 0x185 (two bytes), terminator -/
+example : ObjFile.machoStarts [0x80, 0x20, 0x20, 0x85, 0x03, 0x00, 0x55] = some [0x1000, 0x1020, 0x11a5] := by decide
+/-- a Mach-O presentation: `__TEXT` at 0x100000000, one text section, `_main` in the symbol table, two function starts
+without symbols; loading succeeds and the relative base is the `__TEXT` address -/
+def C05_exPres : ObjFile.Pres where
+  isElf := false
+  objBase := 0
+  segments := [⟨some [95, 95, 80, 65, 71, 69, 90, 69, 82, 79], 0, 0, 0⟩, ⟨some ObjFile.textSegName, 0x100000000, 0, 0x4000⟩]
+  sections := [⟨1, .text, false, 0x100001000, 0x200, some (0x1000, 0x200)⟩]
+  symbols := [⟨0x100001020, 0, .text, some 1, some [95, 109]⟩]
+  dynSymbols := []
+  exports := some []
+  entry := 0
+  funcs := .macho (some [0x80, 0x20, 0x20, 0x40, 0x00]) none
+
+example : ObjFile.relBase C05_exPres = 0x100000000 := by decide
+example : (ObjFile.descOf C05_exPres).map (·.funcStarts) = some (some [0x1000, 0x1020, 0x1060]) := by decide
+example : (ObjFile.mapOf C05_exPres).isSome = true := by
+  simp [ObjFile.mapOf, ObjFile.descOf, ObjFile.funcAddrs, C05_exPres, buildSafe]
+  decide
+
 def C05_exJit : List JitDump.Entry := [⟨98, 5, some [97]⟩, ⟨161, 7, some [98]⟩]
 
 example : JitDump.WF C05_exJit := ⟨by decide, by decide, by decide⟩
@@ -447,6 +666,12 @@ example : JitDump.buildIndex C05_exJit = some ⟨C05_exJit, [0, 5]⟩ := by deci
 example : JitDump.lookup ⟨C05_exJit, [0, 5]⟩ (.rel 11) = .hit ⟨5, some 7, [98]⟩ := by decide
 example : JitDump.lookup ⟨C05_exJit, [0, 5]⟩ (.fileOffset 167) = .hit ⟨5, some 7, [98]⟩ := by decide
 example : JitDump.lookup ⟨C05_exJit, [0, 5]⟩ (.rel 12) = .miss := by decide
+
+/-- a record stream: load(5 code bytes), debug info, load(7), cut 3 bytes before the end: the second load is dropped -/
+example : JitDump.entriesFrom 218 40 [.load 1 5 (some [97]), .debugInfo 53, .load 1 7 (some [98])]
+    = [⟨98, 5, some [97]⟩] := by decide
+example : JitDump.entriesFrom 221 40 [.load 1 5 (some [97]), .debugInfo 53, .load 1 7 (some [98])]
+    = [⟨98, 5, some [97]⟩, ⟨214, 7, some [98]⟩] := by decide
 
 /-- the excluded point: a zero-length record repeats a key; the model's `bsearch` (like the pinned standard
 library) returns the last hit, which is the only one that can be non-empty -/
